@@ -4,7 +4,8 @@ from .. import net
 
 ID = "C20"
 PROPS = ["theories/Props/C20.vo"]
-PINNED = ["C20_roundtrip"]
+PINNED = ["C20_roundtrip", "C20_holds_outside", "C20_refuted_registration_outlives_wait",
+          "C20_refuted_registration_outlives_wait_cross", "C20_wake_hits", "C20_no_cross_wake"]
 CASES_MODULE = "Cases.C20"
 HEADER = ""
 AREA = "net20"
@@ -159,8 +160,18 @@ def distribution(results):
     return d
 
 
-LEVEL_TEXT = ("Unbounded theorems about the Gallina model of the token codec, the selector records, "
-              "COROUTINE_TOKENS and the scheduler's suspended table, tied to the real event loop by running the "
-              "same histories and comparing inside Coq.")
-LEVEL_NOTE = ("Trusted: Coq kernel + vm_compute; hand-written model validated on sampled histories; epoll modelled; "
-              "hooks H5. No axioms.")
+LEVEL_TEXT = ("Unbounded theorems (all histories of waits, timed-out waits, readiness events and interest deletions, "
+              "all 64-bit coroutine ids, any number of descriptors) about the Gallina model of the token codec "
+              "(mio_adapter.rs), the selector records (selector/mod.rs), COROUTINE_TOKENS / EventLoop::resume "
+              "(event_loop.rs) and the scheduler's suspended table (try_resume): C20_roundtrip (the token the OS "
+              "hands back is the coroutine id, for every id), C20_holds_outside (when a coroutine and a descriptor stay "
+              "paired between deletions, every readiness event resumes exactly the waiters of that descriptor, on the "
+              "event), and the refutation witnesses of the recorded finding registration_outlives_wait (a registration "
+              "and its token outlive the wait: a second coroutine waiting on the descriptor is not resumed by the event, "
+              "a coroutine that moved on to another descriptor is resumed by the old one). The model is tied to the "
+              "real event loop by running the same histories against EventLoops with named coroutines and comparing "
+              "kernel-side tokens (/proc fdinfo), H5 hit/miss and resumed coroutines inside Coq.")
+LEVEL_NOTE = ("Trusted: Coq kernel + vm_compute; hand-written model validated on sampled histories only; epoll modelled "
+              "as a table (edge-triggered, one event per data arrival); one event loop, read interest only; hooks H5 and "
+              "verif_submit_raw_co; timeouts are real time (60 s long / 30 ms short). No axioms (Print Assumptions: "
+              "closed under the global context).")
